@@ -1,6 +1,9 @@
 (* C16 driver: scenario = <ntests> { <nops> { op } <group> <name> <file> <line> <ignored> <nstmts> { :p <text> | :f <file> <line> <msg> | :x <file> <line> <msg> } } <npost> { op }
    op = :k <package> (setPackageName) | :n <group> (createFileName, the answer is observed); the ops in front of a test are made just before its
-   printCurrentTestStarted callback, the trailing ones after runAllTests returned.
+   printCurrentTestStarted callback (never, when the test is filtered out), the trailing ones after runAllTests returned.
+   Optional tail: :F <run-ignored> <ngroupfilters> { <pattern> <strict> <invert> } <nnamefilters> { <pattern> <strict> <invert> }
+   (TestRegistry::setRunIgnored / setGroupFilters / setNameFilters; absent = no filters, -ri off).
+   observation = the files that exist at the end (a second open of a name replaces the content), in the order of the first opens:
    observation = <nfiles> { <filename> <content> } <nnames> { <answer of a createFileName call> }.
    Extra form (parser differential, no implementation involved): :xml <bytes> -> 1/0 *)
 let stmt c =
@@ -19,8 +22,15 @@ let test c =
   let g = bytes_tok (next c) in let n = bytes_tok (next c) in let f = bytes_tok (next c) in let l = n_tok (next c) in
   let ign = bool_tok (next c) in let body = counted c stmt in
   (ops, { t_group = g; t_name = n; t_file = f; t_line = l; t_ignored = ign; t_body = body })
+let tfilter c = let p = bytes_tok (next c) in let st = bool_tok (next c) in let inv = bool_tok (next c) in
+  { f_pat = p; f_strict = st; f_invert = inv }
 let scenario c = let ts = counted c test in let post = counted c op in
-  if not (at_end c) then raise (Bad "trailing tokens") else { s_tests = ts; s_post = post }
+  let (ri, gf, nf) =
+    if at_end c then (false, [], [])
+    else (match next c with
+          | ":F" -> let ri = bool_tok (next c) in let gf = counted c tfilter in let nf = counted c tfilter in (ri, gf, nf)
+          | t -> raise (Bad ("tail tag " ^ t))) in
+  if not (at_end c) then raise (Bad "trailing tokens") else { s_tests = ts; s_post = post; s_ri = ri; s_gf = gf; s_nf = nf }
 let pobs ((o, names) : (n list * n list) list * n list list) =
   String.concat " " ((Printf.sprintf "%x" (List.length o) :: List.concat_map (fun (f, x) -> [pbytes f; pbytes x]) o)
                      @ (Printf.sprintf "%x" (List.length names) :: List.map pbytes names))
